@@ -22,6 +22,12 @@ PLANS = {
                    per_beh=2, fs=[1, 19, 21, 25], vts=["tiny"], embs=api.EMBEDDINGS_QUICK),
         thorough=dict(mc=["core", "core2"], gens=[dict(maxlog=2, num=600, depth=30, lean=True, focus="commit")],
                       per_beh=5, fs=[1, 3, 19, 20, 21, 25, 400], vts=["tiny", "edge"], embs=api.EMBEDDINGS_ALL)),
+    "C06": dict(
+        quick=dict(mc=["core2"], gens=[dict(maxlog=2, num=70, depth=24, lean=True, focus="commit")],
+                   per_beh=3, fs=[1, 3, 25], vts=["tiny", "edge"], embs=api.EMBEDDINGS_QUICK),
+        thorough=dict(mc=["core", "core2"], gens=[dict(maxlog=2, num=600, depth=30, lean=True, focus="commit"),
+                                                  dict(maxlog=2, num=300, depth=30, lean=False, focus="overlay")],
+                      per_beh=5, fs=[1, 3, 25, 400], vts=["tiny", "edge", "ovf"], embs=api.EMBEDDINGS_ALL)),
     "C09": dict(
         quick=dict(mc=["core2"], gens=[dict(maxlog=1, num=40, depth=24, lean=True, focus="rollback"),
                                        dict(maxlog=2, num=40, depth=24, lean=True, focus="rollback"),
@@ -58,7 +64,7 @@ PLANS = {
 def run_plan(pid, tier, seed):
     t0 = time.time()
     plan = PLANS[pid][tier]
-    rng = random.Random(seed * 7919 + hash(pid) % 1000)
+    rng = random.Random(seed * 7919 + int(pid[1:]))
     violations = []
     known = []
     notes = []
